@@ -57,6 +57,10 @@ type schedCase struct {
 	// Judge returns (class, detail) for a violating execution or "".
 	Judge func(o execObs) (string, string)
 	Tags  []string
+	// PollBudget: the harness context reports done by itself after this many cancellation polls
+	// (0: 20000). Horizon: step cap per execution (0: 60000).
+	PollBudget int
+	Horizon    int
 }
 
 // exploreCase explores one schedCase (or one shard of its level-1 subtrees) and reports.
@@ -79,8 +83,15 @@ func exploreCase(sc schedCase, tier string, shard, nshards int, r *Result) {
 		var o execObs
 		rc := &rec{}
 		var events []string
-		h := &hostEnv{rec: rc, ctx: newPollCtx(20000), events: &events}
-		x := vsched.Run(60000, func() { sc.Body(h, prog) })
+		budget, horizon := sc.PollBudget, sc.Horizon
+		if budget == 0 {
+			budget = 20000
+		}
+		if horizon == 0 {
+			horizon = 60000
+		}
+		h := &hostEnv{rec: rc, ctx: newPollCtx(budget), events: &events}
+		x := vsched.Run(horizon, func() { sc.Body(h, prog) })
 		o.Events = events
 		o.Out = rc.out.String()
 		o.Sched = x.Outcome
